@@ -23,6 +23,8 @@ def run(ctx):
             ctx.violation("C17/spec", f"OnceInit.tla violates {r.violated} ({cfg})", {"tlc": r.trace})
     r = vlib.tlc_expect_violation("MC_OnceInit", "MC_OnceInit_neg.cfg", workers=2)
     ctx.add_tlc("negative control: the seed is dropped inside the initialiser (must lose the seed on failure)", r, negative=True)
+    r = vlib.tlc_expect_violation("MC_OnceInit", "MC_OnceInit_late.cfg", workers=2)
+    ctx.add_tlc("negative control: the once completes before the value is written (a concurrent get sees the seed's bytes)", r, negative=True)
     rep = worlds.parse_report(vlib.run_bin("amv", ["once-replay", ctx.seed], timeout=600))
     ctx.cov["evaluations"] = rep["cases"]
     ctx.cov["distinct_nontrivial"] = rep["cases"]
@@ -33,7 +35,7 @@ def run(ctx):
     for m in rep["mismatches"]:
         ctx.violation(f"C17/{m.get('what', '?')[:70]}", m.get("what"), {"mismatch": m})
     ctx.cov["rule"] = ("cases = every outcome sequence over {ok, err, panic} of length <= 4 x {seed with Drop, without, panicking destructor} (all distinct, all "
-                       "non-trivial but the empty one) + 300 races of 2-4 threads with prescribed outcomes")
+                       "non-trivial but the empty one) + 300 races of 2-4 threads with prescribed outcomes + 300 publish races (3 readers spinning on get() while one thread initialises a 2 KiB value)")
     ctx.assumptions += ["the interleavings of the racing threads are OS-produced; all of them are covered only in the model"]
 
 
